@@ -108,9 +108,9 @@ Section Align.
     rewrite (bind_val _ _ _ _ _ Hs1).
     assert (Hv1 : vec_sentinel s1 v) by (unfold vec_sentinel; simpl; apply list_put_same).
     eapply post_bind.
-    { eapply post_weaken; [apply (grow_sentinel cfg ncap Hcfg s1 v c a Hv1 Hc Ep L)| |].
-      - intros u s' H. exact H.
-      - intros s' [_ H]. split; [reflexivity|]. split; assumption. }
+    { eapply post_on_unwind.
+      - apply (grow_sentinel cfg ncap Hcfg s1 v c a Hv1 Hc Ep L).
+      - intros s' [_ H]. simpl. split; [reflexivity|]. split; assumption. }
     intros u s' Hg. simpl. right. right. split; [reflexivity|]. split; [assumption|]. split; [reflexivity|].
     exists s1. split; [assumption|]. split; [reflexivity|].
     destruct Hg as [(E1 & E2 & ->)|(size & H1 & H2 & H3)].
